@@ -262,6 +262,15 @@ def run_harnesses(scratch, crate, groups, jobs=8, timeout=900, target_dir=None, 
     out = open(logf).read()
     res = parse_output(out)
     wall = time.time() - t0
+    # CBMC hands its formula to external SAT solvers through /tmp/external-sat*.cnf and leaves the file behind when
+    # the run is stopped (portfolio decided, timeout): remove the ones written during this run
+    try:
+        import glob
+        for fcnf in glob.glob(os.path.join(os.environ.get("TMPDIR", "/tmp"), "external-sat*.cnf")):
+            if os.path.getmtime(fcnf) >= t0 - 1:
+                os.remove(fcnf)
+    except OSError:
+        pass
     by_group = {}
     for g, hs in groups.items():
         best = None
